@@ -2,6 +2,7 @@ package op
 
 import (
 	"errors"
+	"sort"
 
 	"github.com/berquerant/crd/util"
 	"gopkg.in/yaml.v3"
@@ -48,11 +49,15 @@ var (
 	}
 )
 
+// GetDynamicSignStrings lists the dynamics from soft to loud.
 func GetDynamicSignStrings() []string {
 	ss := []string{}
 	for k := range stringDynamicSignMap {
 		ss = append(ss, k)
 	}
+	sort.Slice(ss, func(i, j int) bool {
+		return dynamicSignVelocityMap[stringDynamicSignMap[ss[i]]] < dynamicSignVelocityMap[stringDynamicSignMap[ss[j]]]
+	})
 	return ss
 }
 
